@@ -55,9 +55,9 @@ CLAIMS = {
     'C10': {'level': 'other', 'technique': 'contract-based deductive verification (pyvc) of generate_interactions (modular, against stream_interactions) and stream_interactions x2; bounded stand-in (real files) for the reader and the round trip',
             'text': 'generate_interactions is proved to yield exactly one row per event of stream_interactions(), in stream order (ghost yield sequence), and stream_interactions to enumerate every logged event once in non-decreasing time. Bounded: rows = stream events in order; presence and stream after the round trip; ~20k well-formed logs fed directly to the reader and compared with the oracle '
                     'meaning of the log. Known finding D06 reported.', 'note': KERNEL_NOTE + ' Trusted: the row string as an injective constructor of (u, v, op, t).'},
-    'C11': {'level': 'exploration', 'technique': 'bounded stand-in (real json.dumps/loads) with an oracle from the property text',
-            'text': 'directed flag, nodes incl. isolated ones and attributes, one link per interaction and instant with orientation, rebuilt class/nodes/attributes/presence, '
-                    'custom attrs id, directed argument used only when the data does not say.', 'note': BOUNDED_NOTE},
+    'C11': {'level': 'other', 'technique': 'contract-based deductive verification (pyvc) of node_link_data (links multiset, node entries, directedness; modular against the listing contract); bounded stand-in (real json.dumps/loads) for serialisability and node_link_graph',
+            'text': 'node_link_data is proved to record directedness, to list exactly one entry per node (isolated ones included) and exactly one link {source,target,time} per listed interaction and per instant at which it is present, oriented as the listing (directed: out_interactions_iter), without modifying G; node entries (attributes + id) are kept opaque. Bounded: directed flag, nodes incl. isolated ones and attributes, one link per interaction and instant with orientation, rebuilt class/nodes/attributes/presence, '
+                    'custom attrs id, directed argument used only when the data does not say.', 'note': KERNEL_NOTE + ' json.dumps/loads, attribute dict contents and node_link_graph are bounded only.'},
     'C12': {'level': 'exploration', 'technique': 'bounded stand-in (clause-by-clause path checker from the property text on all small temporal graphs)',
             'text': 'Every returned path of time_respecting_paths / all_time_respecting_paths checked against each clause of the property on all 511 undirected presence '
                     'relations over 3 nodes x 3 instants, directed and shifted variants, string ids, random larger graphs.', 'note': BOUNDED_NOTE},
